@@ -7,9 +7,9 @@
    Not covered by proof (DESIGN.md section 7, C19): data races on Go memory (searched by the race
    detector in checks/c19.py) and the semantics of Go channels/select (assumed as modelled).   *)
 From Coq Require Import List Bool Arith PeanoNat Permutation.
-From Knut Require Import Model.Pipe Model.PipeLoader Spec.PipeSpec.
+From Knut Require Import Model.Pipe Model.PipeLoader Model.PipeFromPath Spec.PipeSpec.
 From Knut Require Import Proofs.PipeInv Proofs.PipeProofs Proofs.PipeLive Proofs.PipeTrace
-                         Proofs.PipeLoaderProofs.
+                         Proofs.PipeExact Proofs.PipeLoaderProofs Proofs.PipeFromPathProofs.
 Import ListNotations.
 
 (* Ownership.  In every reachable state: of two nodes (source 0, stages 1..n, sink n+1) holding
@@ -179,9 +179,36 @@ Theorem trace_ok_complete : forall n m fails sched,
 Proof. exact trace_ok_complete_run. Qed.
 Print Assumptions trace_ok_complete.
 
-(* trace_ok_exact_partial.  Not proved: that every trace accepted by trace_ok is the trace of some
-   run for some oracle (the converse of trace_ok_complete):
-     forall n tr, trace_ok n tr = true -> exists m fails sched, trace (run n m fails sched init) = tr. *)
+(* Exactness (the converse of trace_ok_complete).  Every event list accepted by the checker is the
+   trace of a run of the transition system from its initial state, for some number of items and
+   some failure oracle (the proof uses length tr items and the oracle that never fails; the
+   schedule uses only Fetch, Hand, Begin, End - nothing is cancelled or closed). *)
+Theorem C19_trace_ok_exact : forall n tr, trace_ok n tr = true ->
+  exists m fails sched, trace (run n m fails sched init) = tr.
+Proof. exact trace_ok_exact. Qed.
+Print Assumptions C19_trace_ok_exact.
+
+(* Exactness per instance.  For n stages, items 0..m-1 and failure oracle [fails], the traces of
+   the runs are exactly the accepted event lists that fit the instance (Spec/PipeSpec.v
+   [respects]: items below m; a begin of item k at stage i only if f_(i-1)(t_k) succeeded and
+   f_(i+j)(t_(k-1-j)) succeeded for all j >= 0 with i+j <= n - a stage that failed neither hands
+   its item on nor receives again). *)
+Theorem C19_trace_exact : forall n m fails tr,
+  (exists sched, trace (run n m fails sched init) = tr) <->
+  (trace_ok n tr = true /\ respects n m fails tr).
+Proof. exact trace_exact. Qed.
+Print Assumptions C19_trace_exact.
+
+(* The checker as it was before the back-pressure clause (Spec/PipeSpec.v trace_ok_loose: per stage
+   source order and alternation, begin(i,k) after end(i-1,k)) is complete but not exact: for two
+   stages it accepts  b(1,0) e(1,0) b(1,1) e(1,1) b(1,2)  which no run emits for any number of items, any
+   oracle and any schedule - the channels are unbuffered, so stage 1 cannot take its third item
+   before stage 2 has taken (begun and ended) its first.  trace_ok now has the clause. *)
+Theorem trace_ok_loose_exact_refuted : exists n tr,
+  trace_ok_loose n tr = true /\
+  forall m fails sched, trace (run n m fails sched init) <> tr.
+Proof. exists 2, loose_witness. exact trace_ok_loose_not_exact. Qed.
+Print Assumptions trace_ok_loose_exact_refuted.
 
 (* ------------------------------------------------------------------------------------------
    The loader.  [rank] witnesses that the include graph is acyclic. *)
@@ -230,6 +257,106 @@ Proof. exact self_include_unbounded. Qed.
 Print Assumptions C19_loader_cycle_unbounded.
 
 (* ------------------------------------------------------------------------------------------
+   journal.FromPath with its three consumers (Model/PipeFromPath.v).  Oracles: [bad f] parsing f
+   fails, [cbad f] converting f fails, [abad f] Builder.Add fails on f (constantly false in knut as
+   it is: Add fails only on a directive type that model.ParseDirective never produces).
+   [drain = true] is the code as it is: model.FromStream keeps receiving after a conversion error. *)
+
+(* Termination from closure (nothing cancels the outer context).  Every schedule makes at most
+   3 W(root) + 4 effective steps (for every oracle, with or without the drain).  In the code as it
+   is, with a builder that does not fail, a reachable state in which some worker has not returned
+   has an enabled label - no stage blocks forever, whatever fails in the parsers and in the
+   conversion - and after any schedule the canonical scheduler (first enabled label) makes all
+   three workers return within the bound. *)
+Theorem C19_frompath_terminates : forall inc bad cbad abad drain rank root sched,
+  (forall f g, In g (inc f) -> rank g < rank f) ->
+  feffective inc bad cbad abad drain sched (finit inc root) <= 3 * W inc rank root + 4 /\
+  (drain = true -> (forall f, abad f = false) ->
+   let st := frun inc bad cbad abad drain sched (finit inc root) in
+   (ffinished st = false -> exists l, In l (flabels st) /\ fenabled inc bad cbad abad drain st l = true) /\
+   ffinished (fdrain inc bad cbad abad drain (3 * W inc rank root + 4) st) = true).
+Proof.
+  intros inc bad cbad abad drain rank root sched H. split.
+  - rewrite <- (fmu_init inc rank H root). apply feffective_bound_from. exact H.
+  - intros Hd Ha st. pose proof (reachable_fpinv inc bad cbad abad drain rank H root sched) as HI. split.
+    + intros F. exact (fdeadlock_free inc bad cbad abad drain rank root st HI Hd Ha F).
+    + apply (fdrain_finishes_from inc bad cbad abad drain rank H root); auto.
+      rewrite <- (fmu_init inc rank H root). apply frun_fmu. exact H.
+Qed.
+Print Assumptions C19_frompath_terminates.
+
+(* Success.  If the three workers have returned and no error was recorded - whatever the oracles
+   are - then FromPath returns the builder, the files whose directives were added to it are exactly
+   (as a multiset) the files of the include tree, one copy per include path: each file's directives
+   reach the builder exactly once when no file is included twice; no stage failed and nothing was
+   cancelled.  And when no stage function fails, no error is ever recorded. *)
+Theorem C19_frompath_loads_once : forall inc bad cbad abad drain rank root sched,
+  (forall f g, In g (inc f) -> rank g < rank f) ->
+  let st := frun inc bad cbad abad drain sched (finit inc root) in
+  (ffinished st = true -> f_werrs st = [] ->
+     foutcome_of st = FOk (f_added st) /\
+     Permutation (f_added st) (expand inc (rank root) root) /\
+     (NoDup (expand inc (rank root) root) -> NoDup (f_added st)) /\
+     f_bld st = BDone /\ f_perrs st = [] /\ f_cerrs st = [] /\ f_pcancel st = false /\ f_ccancel st = false) /\
+  ((forall f, bad f = false) -> (forall f, cbad f = false) -> (forall f, abad f = false) -> f_werrs st = []).
+Proof.
+  intros inc bad cbad abad drain rank root sched H st.
+  pose proof (reachable_fpinv inc bad cbad abad drain rank H root sched) as HI. split.
+  - intros F We.
+    destruct (ffinished_success inc bad cbad abad drain rank root st HI F We) as (P & B & Pe & Ce & Pc & Cc).
+    repeat split; auto.
+    + unfold foutcome_of. rewrite F, We. reflexivity.
+    + intros ND. apply (Permutation_NoDup (Permutation_sym P) ND).
+  - exact (nofail_no_werrs inc bad cbad abad drain rank root st HI).
+Qed.
+Print Assumptions C19_frompath_loads_once.
+
+(* Errors.  Every error recorded by the outer pool - in particular the first, which FromPath
+   returns - is the error of a stage function that did fail (never the cancellation error of a
+   bystander); and once the three workers have returned, a failure in any of the three stages
+   (a parser task, a conversion task, Builder.Add) makes FromPath return such an error. *)
+Theorem C19_frompath_error : forall inc bad cbad abad drain rank root sched,
+  (forall f g, In g (inc f) -> rank g < rank f) ->
+  let st := frun inc bad cbad abad drain sched (finit inc root) in
+  (forall e, In e (f_werrs st) -> genuine bad cbad abad e = true) /\
+  (ffinished st = true ->
+   (exists t, In t (f_ptasks st) /\ t_st t = PFail) \/
+   (exists c, In c (f_ctasks st) /\ c_st c = CFail) \/ f_bld st = BFail ->
+   exists e, foutcome_of st = FErr e /\ genuine bad cbad abad e = true).
+Proof.
+  intros inc bad cbad abad drain rank root sched H st.
+  pose proof (reachable_fpinv inc bad cbad abad drain rank H root sched) as HI. split.
+  - exact (P_werrs _ _ _ _ _ _ _ _ HI).
+  - intros F Hf.
+    destruct (ffailure_reported inc bad cbad abad drain rank root st HI F Hf) as (e & rest & We & G).
+    exists e. split; [|exact G]. unfold foutcome_of. rewrite F, We. reflexivity.
+Qed.
+Print Assumptions C19_frompath_error.
+
+(* Without the drain (model.FromStream returns at the first conversion error): a reachable state in
+   which nothing is enabled, worker1 has not returned, and a parser task is blocked in Push on
+   syntaxCh with its context not cancelled - knut hangs.  (Seeded change
+   C19b-fromstream-inline-hang.) *)
+Theorem C19_frompath_nodrain_refuted : exists inc bad cbad abad root sched,
+  let st := frun inc bad cbad abad false sched (finit inc root) in
+  ffinished st = false /\ stuck_pusher st = true /\ f_pcancel st = false /\
+  (forall l, fstep inc bad cbad abad false l st = None).
+Proof. exists inc01, none, is1, none, 0, nodrain_sched. exact nodrain_blocks. Qed.
+Print Assumptions C19_frompath_nodrain_refuted.
+
+(* The hypothesis on Builder.Add in C19_frompath_terminates is needed: in the code as it is, if
+   Builder.Add returned an error, the builder would stop receiving, and the next conversion task
+   would block in Push on modelCh forever (the error is recorded but p.Wait never returns).  Not
+   reachable from any journal today (findings/C19-builder-error-latent-hang.md). *)
+Theorem C19_frompath_builder_error_refuted : exists inc bad cbad abad root sched,
+  let st := frun inc bad cbad abad true sched (finit inc root) in
+  ffinished st = false /\ stuck_pusher st = true /\ f_ccancel st = false /\
+  f_werrs st = [WAdd 1] /\
+  (forall l, fstep inc bad cbad abad true l st = None).
+Proof. exists inc01, none, none, is1, 0, addfail_sched. exact builder_error_blocks. Qed.
+Print Assumptions C19_frompath_builder_error_refuted.
+
+(* ------------------------------------------------------------------------------------------
    examples: the hypotheses are satisfiable and the model runs *)
 Definition rr (n : nat) : list label :=   (* one round-robin round over all labels *)
   all_labels n.
@@ -246,8 +373,29 @@ Example C19_example_failure :
   terminal 3 st = true /\ outcome_of st = Failure (EFail 2 1) /\ trace_ok 3 (trace st) = true.
 Proof. vm_compute. repeat split. Qed.
 
+(* an accepted event list with a failing stage function that fits its instance *)
+Example C19_example_respects :
+  let fails := fun i k => (i =? 2) && (k =? 1) in
+  let st := run 3 4 fails (rounds 3 40) init in
+  trace_ok 3 (trace st) = true /\ respects 3 4 fails (trace st) /\
+  trace_ok_loose 2 loose_witness = true /\ trace_ok 2 loose_witness = false.
+Proof.
+  split; [vm_compute; reflexivity|]. split; [|split; vm_compute; reflexivity].
+  apply (proj1 (C19_trace_exact 3 4 _ _)). eexists. reflexivity.
+Qed.
+
 Example C19_example_loader :
   let inc := fun f => match f with 0 => [1; 2] | 1 => [3] | _ => [] end in
   let st := ldrain inc (fun _ => false) (fun _ => false) 40 (linit inc 0) in
   finished st = true /\ got st = [0; 1; 2; 3].
 Proof. vm_compute. split; reflexivity. Qed.
+
+Example C19_example_frompath :
+  let inc := fun f => match f with 0 => [1; 2] | 1 => [3] | _ => [] end in
+  let ok := fdrain inc none none none true 60 (finit inc 0) in
+  let pe := fdrain inc (fun f => f =? 3) none none true 60 (finit inc 0) in
+  let ce := fdrain inc none (fun f => f =? 2) none true 60 (finit inc 0) in
+  foutcome_of ok = FOk [0; 1; 2; 3] /\ foutcome_of pe = FErr (WParse 3) /\ foutcome_of ce = FErr (WConv 2) /\
+  foutcome_of (fdrain inc01 none is1 none true 30
+                 (frun inc01 none is1 none true nodrain_sched (finit inc01 0))) = FErr (WConv 1).
+Proof. vm_compute. repeat split. Qed.
